@@ -84,21 +84,30 @@ def spec_parent(children_disp, dtype, ch_buf):
     return out
 
 
-def _cascade_target(base, fmt, depth, parallel):
+def _cascade_target(base, fmt, depth, parallel, via_cli=None):
     from toasty.pyramid import PyramidIO
     from toasty.merge import cascade_images, averaging_merger
     import toasty.par_util
     toasty.par_util.SHOW_INFORMATIONAL_MESSAGES = False
-    pio = PyramidIO(base, default_format=fmt)
     with warnings.catch_warnings():
         warnings.simplefilter("ignore")
-        cascade_images(pio, depth, averaging_merger, parallel=parallel)
+        if via_cli:
+            # the command-line entry point: `toasty cascade --start D [--format F] --parallelism P DIR`
+            from toasty import cli
+            args = ["cascade", "--start", str(depth), "--parallelism", str(parallel)]
+            if via_cli == "format":
+                args += ["--format", fmt]
+            sys.stdout = sys.stderr = open(os.devnull, "w")
+            cli.entrypoint(args + [base])
+        else:
+            pio = PyramidIO(base, default_format=fmt)
+            cascade_images(pio, depth, averaging_merger, parallel=parallel)
     return "ok"
 
 
-def run_cascade(base, fmt, depth, parallel, timeout=120):
+def run_cascade(base, fmt, depth, parallel, timeout=120, via_cli=None):
     from .common import run_isolated
-    st, val = run_isolated(_cascade_target, (base, fmt, depth, parallel), timeout)
+    st, val = run_isolated(_cascade_target, (base, fmt, depth, parallel, via_cli), timeout)
     if st == "ok":
         return "ok"
     if st == "hang":
@@ -161,8 +170,10 @@ def main():
                     warnings.simplefilter("ignore")
                     for (x, y), a in leaves.items():
                         pio.write_image(Pos(depth, x, y), Image.from_array(a.copy()))
-                st = run_cascade(base, fmt, depth, par)
-                h.count("cascade", f"{kind}/par{par}")
+                # a third of the cascades go through the command line (`--format` given, or guessed from the files)
+                via_cli = None if ci % 3 else ("format" if (ci // 3) % 2 == 0 else "guess")
+                st = run_cascade(base, fmt, depth, par, via_cli=via_cli)
+                h.count("cascade", f"{kind}/par{par}" + (f"/cli-{via_cli}" if via_cli else ""))
                 if st != "ok":
                     h.violation(f"run:{par}", f"cascade_images({kind}, depth {depth}, parallel={par}) {st}", input={"kind": kind, "depth": depth, "leaves": sorted(leaves), "parallel": par})
                     continue
